@@ -23,6 +23,28 @@ func samePortCount(a, b client.Object) bool          { return len(svc(a).Spec.Po
 
 var groupsByKind = map[string][]fieldGroup{
 	"Service": {
+		{"port-order", // the same entries in another order
+			func(o, n client.Object) bool {
+				a, b := svc(o).Spec.Ports, svc(n).Spec.Ports
+				if len(a) != len(b) || reflect.DeepEqual(a, b) {
+					return false
+				}
+				used := make([]bool, len(b))
+				for _, x := range a {
+					found := false
+					for j, y := range b {
+						if !used[j] && reflect.DeepEqual(x, y) {
+							used[j], found = true, true
+							break
+						}
+					}
+					if !found {
+						return false
+					}
+				}
+				return true
+			},
+			func(o, n client.Object) { svc(n).Spec.Ports = svc(o).DeepCopy().Spec.Ports }},
 		{"port-numbers",
 			func(o, n client.Object) bool {
 				if !samePortCount(o, n) {
